@@ -362,3 +362,74 @@ def rh1(P, C, floor=3):
              "%d open call(s); %s" % (no, "no raising element or return between a successful open and the construction of the closing guard / the close"
                                       if not bad else "%s at %s while the handle is open and nothing owns it" % (bad[0][1], ", ".join(f.loc(i) for i, _ in bad[:4]))))
     return n
+
+
+# --------------------------------------------------------------------------
+# ED-4: the status returned by the fitter's own routines is not dropped
+# --------------------------------------------------------------------------
+def status_functions(P):
+    """functions of the C fitter whose int result is an error indicator: every return value is an integer constant, 0 on the normal
+    path and non-zero somewhere (derived from the bodies, not listed by hand)"""
+    out = {}
+    for f in P.functions.values():
+        if not f.unit.startswith("fitter/") or f.d.get("rtype") != "int":
+            continue
+        vals = []
+        for r in f.walk():
+            if f.k(r) == "ReturnStmt" and f.nodes[r].get("value", -1) >= 0:
+                vals.append(f.nodes[f.strip(f.nodes[r]["value"])].get("cv"))
+        if vals and all(v is not None for v in vals) and 0 in vals and any(v != 0 for v in vals):
+            out[f.name] = sorted(set(vals))
+    return out
+
+
+def ed4(P, C, floor=4):
+    C.rule("ED-4", "the int status returned by the fitter's own routines (those whose every return is an integer constant, 0 on success) is "
+           "examined at every call site: the call is the operand of a comparison or its value is stored in a variable that a branch tests "
+           "before the function's normal exit; a bare call statement drops the failure", floor=floor)
+    sf = status_functions(P)
+    if not sf:
+        raise core.AnalysisBroken("ED-4: no status-returning fitter routine found")
+    n = 0
+    seen = set()
+    for f in sorted(P.functions.values(), key=lambda g: (g.file, g.line)):
+        if f.unit.startswith("selftest"):
+            continue
+        for i, cal in f.calls():
+            if not cal or cal["name"] not in sf:
+                continue
+            key = (f.file, str(f.nodes[i]["loc"]), f.qname if f.unit != "driver-noevaltmpl" else "")
+            if (f.file, str(f.nodes[i]["loc"]), f.name, f.unit) in seen:
+                continue
+            seen.add((f.file, str(f.nodes[i]["loc"]), f.name, f.unit))
+            p = f.parent[i]
+            while p >= 0 and f.k(p) in ("ImplicitCastExpr", "ParenExpr", "ExprWithCleanups"):
+                p = f.parent[p]
+            how = "dropped (bare call statement)"
+            ok = False
+            pk = f.k(p) if p >= 0 else None
+            var = None
+            if pk == "BinaryOperator" and f.nodes[p]["op"] in ("!=", "==", "<", ">"):
+                ok, how = True, "compared directly"
+            elif pk in ("IfStmt", "WhileStmt", "ConditionalOperator", "UnaryOperator"):
+                ok, how = True, "tested directly"
+            elif pk == "BinaryOperator" and f.nodes[p]["op"] == "=":
+                t = f.strip(f.nodes[p]["ch"][0])
+                var = f.nodes[t]["decl"]["id"] if f.k(t) == "DeclRefExpr" else None
+            elif pk == "DeclStmt" or pk == "VarDecl":
+                for d in f.nodes[p].get("decls", []):
+                    if d.get("init", -1) >= 0 and i in set(f.walk(d["init"])):
+                        var = d["id"]
+            elif pk == "ReturnStmt":
+                ok, how = True, "returned to the caller"
+            if var is not None:
+                tests = [x for x in f.walk() if f.k(x) in ("IfStmt", "WhileStmt") and
+                         any(f.k(y) == "DeclRefExpr" and f.nodes[y]["decl"]["id"] == var for y in f.walk(f.nodes[x]["cond"])) and
+                         f.nodes[x]["loc"] >= f.nodes[i]["loc"]]
+                ok = bool(tests)
+                how = "stored in %s and tested at %s" % (f.var_name(var), f.loc(tests[0])) if ok else "stored in %s, which no branch tests afterwards" % f.var_name(var)
+            n += 1
+            from . import ts
+            C.ob("ED-4", ts.fshort(f) if f.cls else f.name, "%s#%d" % (cal["name"], len([k for k in seen if k[2] == f.name and k[3] == f.unit])), ok, f.loc(i),
+                 "status of %s (returns %s) is %s" % (cal["name"], sf[cal["name"]], how))
+    return n
